@@ -40,6 +40,7 @@ const (
 
 var (
 	errUnknownTimerType = errors.New("unknown metric timer type")
+	errWrongTimerFlavor = errors.New("metric already registered as the other of summary and histogram")
 	ms                  = float64(time.Millisecond) / float64(time.Second)
 )
 
@@ -470,6 +471,10 @@ func (r *reporter) summaryVec(
 	defer r.Unlock()
 
 	if s, ok := r.timers[id]; ok {
+		if s.summary == nil {
+			// registered as a histogram (timer or tally histogram)
+			return nil, errWrongTimerFlavor
+		}
 		return s.summary, nil
 	}
 
@@ -502,6 +507,10 @@ func (r *reporter) histogramVec(
 	defer r.Unlock()
 
 	if h, ok := r.timers[id]; ok {
+		if h.histogram == nil {
+			// registered as a summary timer
+			return nil, errWrongTimerFlavor
+		}
 		return h.histogram, nil
 	}
 
